@@ -60,9 +60,15 @@ def strip_comments(src):
     s = "".join(out)
     return re.sub(r"--.*", "", s)
 
+def prop_modules(prop_id):
+    """the property's theorem files: Props/<id>.lean and its continuation files Props/<id><Suffix>.lean"""
+    import glob as _g
+    fs = sorted(_g.glob(os.path.join(LEAN, "RarenaVerif", "Props", f"{prop_id}*.lean")))
+    return ["RarenaVerif.Props." + os.path.basename(f)[:-5] for f in fs if re.fullmatch(prop_id + r"[A-Za-z]*", os.path.basename(f)[:-5])]
+
 def import_closure(prop_id):
-    """files (relative module paths) transitively imported by Props/<id>.lean inside the project"""
-    seen, todo = [], [f"RarenaVerif.Props.{prop_id}"]
+    """files (relative module paths) transitively imported by the property's theorem files inside the project"""
+    seen, todo = [], list(prop_modules(prop_id))
     while todo:
         mod = todo.pop()
         if mod in seen:
@@ -87,14 +93,15 @@ def scan_sources(prop_id):
     return hits
 
 def theorem_names(prop_id):
-    """names of the theorems stated in Props/<id>.lean"""
-    p = os.path.join(LEAN, "RarenaVerif", "Props", f"{prop_id}.lean")
-    if not os.path.exists(p):
-        return []
-    src = strip_comments(open(p).read())
-    ns = re.findall(r"^namespace\s+(\S+)", src, re.M)
-    prefix = (ns[0] + ".") if ns else ""
-    return [prefix + n for n in re.findall(r"^theorem\s+([A-Za-z0-9_'.]+)", src, re.M)]
+    """names of the theorems stated in Props/<id>.lean (and its continuation files)"""
+    out = []
+    for mod in prop_modules(prop_id):
+        p = os.path.join(LEAN, *mod.split(".")) + ".lean"
+        src = strip_comments(open(p).read())
+        ns = re.findall(r"^namespace\s+(\S+)", src, re.M)
+        prefix = (ns[0] + ".") if ns else ""
+        out += [prefix + n for n in re.findall(r"^theorem\s+([A-Za-z0-9_'.]+)", src, re.M)]
+    return out
 
 def axiom_audit(prop_id):
     """#print axioms for every theorem of the property file; returns (ok, {thm: [axioms]}, output)"""
@@ -104,7 +111,8 @@ def axiom_audit(prop_id):
     os.makedirs(WORK, exist_ok=True)
     f = os.path.join(WORK, f"Audit_{prop_id}.lean")
     with open(f, "w") as fh:
-        fh.write(f"import RarenaVerif.Props.{prop_id}\n")
+        for mod in prop_modules(prop_id):
+            fh.write(f"import {mod}\n")
         for n in names:
             fh.write(f"#print axioms {n}\n")
     p = run(["lake", "env", "lean", f], cwd=LEAN, timeout=1800)
